@@ -13,7 +13,7 @@ use crate::{
     osu::Profile,
     rng::{hash_str, Rng},
     runner::{guard, Ctx},
-    sets::{self, SetDomain},
+    sets::{self},
 };
 
 /// Operation sequence on the compact strain list over non-negative finite values; the digest of
@@ -154,7 +154,7 @@ pub fn case(ctx: &mut Ctx, idx: u64) {
     }
     for mode in maps::reachable_modes(&map) {
         let mname = mode_name(mode);
-        let mut spec = sets::gen_setspec(&mut rng, mode, SetDomain::Game);
+        let mut spec = sets::gen_setspec_wide(&mut rng, mode, &map);
         if rng.chance(0.3) {
             spec.passed = Some(rng.below(map.hit_objects.len() as u64 + 2) as u32);
         }
